@@ -670,8 +670,11 @@ def error_cases():
                    "layers": layers, "request": {"method": "GET"}}
         for raises in ("before", "after", "mid"):
             for returns in ("list", "generator"):
-                yield {"inner": {"app": "raw", "status": "202 Accepted", "headers": [["X-A", "1"], ["Set-Cookie", "a=1"]], "chunks": [b"one", b"two", b"three"], "returns": returns, "raises": raises},
-                       "layers": layers, "request": {"method": "GET"}}
+                for exc in (None, "TypeError", "AttributeError", "KeyError", "ValueError", "OSError", "RuntimeError", "LookupError"):
+                    raw = {"app": "raw", "status": "202 Accepted", "headers": [["X-A", "1"], ["Set-Cookie", "a=1"]], "chunks": [b"one", b"two", b"three"], "returns": returns, "raises": raises}
+                    if exc:
+                        raw["exc"] = exc  # the application fails with a built-in exception class: it must still run exactly once
+                    yield {"inner": raw, "layers": layers, "request": {"method": "GET"}}
         # a failing mid-body application behind an editing layer: the exception class and what was emitted before
         yield {"inner": xraw([["X-Inner", "orig"]], [b"one", b"two"], returns="generator", raises="mid"), "layers": layers + [mw("set", name="x-inner", value="replaced")], "request": {"method": "GET"}}
 
@@ -759,6 +762,7 @@ def raw_app(draw):
         "chunks": chunks,
         "returns": draw(st.sampled_from(["list", "tuple", "iter", "generator", "generator-late-start", "restart"])),
         "raises": draw(st.sampled_from([None, None, None, None, "before", "after", "mid"])),
+        "exc": draw(st.sampled_from([None, None, "TypeError", "AttributeError", "KeyError", "ValueError", "OSError", "RuntimeError"])),
     }
 
 
